@@ -5,13 +5,15 @@
 // Type tags of the specification and the concrete C++ types they stand for:
 //   int, uint (unsigned), i64 (int64_t), short, char, float, double, bool,
 //   str (std::string), cstr (const char *), ptr (void *), vec3f, vec3i, vec2f
-//   (rkcommon::math), thr (a type whose copy constructor throws on request);
+//   (rkcommon::math), thr (a type whose copy constructor throws on request),
+//   weq (a type whose operator== compares a part of the value only);
 //   "none" is reported for a parameter without a value.
 // Several of them differ only in signedness / width / element type, have mangled
 // names of equal length or with a common prefix, or convert into one another.
 // "namemap" (input line, default 0) selects the concrete names the model names
 // 1, 2, 3 stand for (empty, NUL bytes, bytes >= 0x80, equal up to a NUL / a long
 // prefix); every map is injective on the names used with it.
+#include <cmath>
 #include <cstdint>
 #include <string>
 #include "driver.h"
@@ -96,8 +98,27 @@ template <> struct Val<unsigned> { static unsigned make(long long v) { return 30
 template <> struct Val<int64_t>  { static int64_t make(long long v) { return ((int64_t)1 << 40) + v; }   static Json back(int64_t x) { return Json((long long)(x - ((int64_t)1 << 40))); } };
 template <> struct Val<short>    { static short make(long long v) { return (short)-v; }                  static Json back(short x) { return Json(-(int)x); } };
 template <> struct Val<char>     { static char make(long long v) { return (char)v; }                       static Json back(char x) { return Json((int)x); } };
-template <> struct Val<float>    { static float make(long long v) { return (float)v + 0.5f; }            static Json back(float x) { return Json((long long)(x - 0.5f)); } };
-template <> struct Val<double>   { static double make(long long v) { return (double)v + 0.25; }          static Json back(double x) { return Json((long long)(x - 0.25)); } };
+// float / double: the model values 1 and 2 are the two zeros - values that operator== calls equal although they are
+// distinguishable (an overwrite of one by the other is a write like any other: seeded/C10-07)
+template <> struct Val<float>
+{
+  static float make(long long v) { return v == 1 ? 0.0f : v == 2 ? -0.0f : (float)v + 0.5f; }
+  static Json back(float x) { return x == 0.0f ? Json(std::signbit(x) ? 2 : 1) : Json((long long)(x - 0.5f)); }
+};
+template <> struct Val<double>
+{
+  static double make(long long v) { return v == 1 ? 0.0 : v == 2 ? -0.0 : (double)v + 0.25; }
+  static Json back(double x) { return x == 0.0 ? Json(std::signbit(x) ? 2 : 1) : Json((long long)(x - 0.25)); }
+};
+// weq: a user type whose operator== looks at a part of the value only (every two values compare equal)
+struct Weq
+{
+  int id;
+  int payload;
+  bool operator==(const Weq &o) const { return id == o.id; }
+  bool operator!=(const Weq &o) const { return id != o.id; }
+};
+template <> struct Val<Weq> { static Weq make(long long v) { Weq w; w.id = 7; w.payload = (int)v; return w; } static Json back(const Weq &x) { return x.id == 7 ? Json(x.payload) : Json("unmapped weq"); } };
 template <> struct Val<bool>     { static bool make(long long v) { return v == 1; }                      static Json back(bool x) { return Json(x ? 1 : 2); } };
 template <> struct Val<std::string>
 {
@@ -124,7 +145,7 @@ typedef void *ptr_t;
 // one line per type tag
 #define FOR_EACH_TYPE(X) \
   X("int", int) X("uint", unsigned) X("i64", int64_t) X("short", short) X("char", char) X("float", float) X("double", double) \
-  X("str", std::string) X("cstr", cstr_t) X("ptr", ptr_t) X("vec3f", vec3f) X("vec3i", vec3i) X("vec2f", vec2f) X("thr", Thr)
+  X("str", std::string) X("cstr", cstr_t) X("ptr", ptr_t) X("vec3f", vec3f) X("vec3i", vec3i) X("vec2f", vec2f) X("thr", Thr) X("weq", Weq)
   // ("bool" is handled apart in getParam: it has only two values)
 
 struct Probe : ParameterizedObject
